@@ -31,13 +31,28 @@ def main():
 
     ctx = core.Ctx(pid, a.tier, seed)
     # 1. translators regenerate Pyc/Generated/* from the current source
+    tproblems = []
+    lk = core._lock()       # regenerating the tables and building against them is one step (checks may run side by side)
     for t in getattr(mod, 'TRANSLATORS', []):
-        importlib.import_module('translators.' + t).generate(core.REPO, os.path.join(core.LEAN, 'Pyc', 'Generated'))
+        try:
+            importlib.import_module('translators.' + t).generate(core.REPO, os.path.join(core.LEAN, 'Pyc', 'Generated'))
+        except Exception as e:  # the source no longer has the shape the translator reads: the tie is broken, not the property
+            tproblems.append('translator %s could not regenerate its model from the source: %s: %s' % (t, type(e).__name__, e))
     # 2. proofs: build the property's theorem file and whatever it imports
     prop_mods = list(getattr(mod, 'LEAN_PROPS', ['Pyc.Props.' + pid]))
     targets = prop_mods + list(getattr(mod, 'LEAN_MODULES', []))
-    ok, log, failed = core.lake_build(targets)
-    thms, discharged, problems = [], 0, []
+    # whatever the property's drivers import has to be built as well (a fresh checkout has no .lake)
+    import glob
+    import re
+    for drv in sorted(glob.glob(os.path.join(core.LEAN, 'drv', pid + '*.lean'))):
+        for m in re.findall(r'^import\s+(Pyc[\w.]*)', open(drv).read(), re.M):
+            if m not in targets:
+                targets.append(m)
+    try:
+        ok, log, failed = core.lake_build(targets, have_lock=True)
+    finally:
+        lk.close()
+    thms, discharged, problems = [], 0, list(tproblems)
     if not ok:
         problems.append('lake build failed for %s: %s' % (failed or targets, log[-1500:]))
     else:
